@@ -13,6 +13,8 @@ checked by the known-answer tests in `Gotlcp/Crypto/*.lean` at build time and by
 with emmansun/gmsm on every correspondence run (see checks/C04.json, trusted base).
 -/
 import Gotlcp.Lemmas.KeyScheduleRecord
+import Gotlcp.Lemmas.KeyScheduleWrite
+import Gotlcp.Tie.PaddingDtlcp
 import Gotlcp.Generated.Facts
 
 set_option linter.unusedSimpArgs false
@@ -22,6 +24,7 @@ namespace Gotlcp.Props.C04
 open Gotlcp.Crypto
 open Gotlcp.Lemmas.KeySchedule
 open Gotlcp.Lemmas.KeyScheduleRecord
+open Gotlcp.Lemmas.KeyScheduleWrite
 open Gotlcp.Model.KeySchedule
 
 /-! ### the regenerated facts the other theorems (and the model) rely on -/
@@ -86,8 +89,13 @@ theorem C04_facts :
     Facts.dtlcp.ccsZeroesSeq = true ∧ Facts.dtlcp.ccsInstallsNext = true ∧
     Facts.tlcp.writeRecordCCS = ["err := c.out.changeCipherSpec()"] ∧
     Facts.dtlcp.writeRecordCCS = ["err := c.out.changeCipherSpec()", "c.writeEpoch++", "c.writeSeq = 0"] ∧
-    Facts.tlcp.writeRecordPerRecord = ["encrypt"] ∧
-    Facts.dtlcp.writeRecordPerRecord = ["c.setWriteSeq()", "encrypt", "c.writeSeq++"] ∧
+    -- the per-record loop of writeRecordLocked: the statements that touch the sequence state, in
+    -- order, around the hand-over to the transport ("write"); nothing in the error branch of the
+    -- write ("write-err:…") nor anywhere else hands a number back, and dtlcp advances writeSeq
+    -- BEFORE the write — a sealed record has consumed its number whatever the transport answers
+    Facts.tlcp.writeRecordPerRecord = ["encrypt", "write"] ∧
+    Facts.dtlcp.writeRecordPerRecord = ["c.setWriteSeq()", "encrypt", "c.writeSeq++", "write"] ∧
+    srcTlcp.seqConsumedOnWriteError = true ∧ srcDtlcp.seqConsumedOnWriteError = true ∧
     -- what enters the additional data / the MAC
     Facts.tlcp.encryptADParts = ["|", "hc.seq[:]...", "record[:recordHeaderLen]..."] ∧
     Facts.tlcp.decryptADParts = ["|", "hc.seq[:]...", "record[:3]...", "byte(n >> 8), byte(n)"] ∧
@@ -526,6 +534,173 @@ theorem C04_seq_resets_only_on_ccs (P : Prims) (st : Stack) (h : Half) (record p
       simp
   · intro hn
     simp [changeCipherSpec, hn]
+
+/-! ### a failed transport write -/
+
+/-- **Whatever the transport answers, a sealed record consumes its sequence number.**  One record
+through `writeRecordLocked` — handed over successfully (`sent = true`) or with `c.write` failing
+(`sent = false`, the function returns early) — leaves the write side exactly one step further:
+tlcp `out.seq` + 1, dtlcp `writeSeq` + 1 in the same epoch; cipher and epoch are untouched.  Hence the
+record a later `sendAlertLocked` seals (close_notify, an alert of the read path) is never sealed
+under the number of the failed one.  (Rests on `C04_facts`: no statement of the per-record loop
+after `encrypt` writes the sequence state — in particular not the error branch of the transport
+write — and dtlcp's `c.writeSeq++` stands before the write.) -/
+theorem C04_write_consumes_seq (P : Prims) (st : Stack) (w : WriteSide) (typ vers : Nat) (chunk rand : Bytes)
+    (sent : Bool) (rec : Bytes) (w' : WriteSide)
+    (hc : w.out.cipher ≠ none) (hb : st = .dtlcp → w.writeSeq + 1 < 2 ^ 64)
+    (h : writeOneT P (srcOf st) st w typ vers chunk rand sent = .ok (rec, w')) :
+    sealKey st w' = sealKey st w + 1 ∧ w'.writeEpoch = w.writeEpoch ∧ w'.out.cipher = w.out.cipher ∧
+    (st = .tlcp → w'.out.seq.length = w.out.seq.length) :=
+  write_consumes_seq P st w typ vers chunk rand sent rec w' hc hb h
+
+/-- **No sequence number / GCM nonce is used twice, whatever the transport does.**  For every
+history of records handed to the transport of one connection state (any types, contents, IV bytes,
+and ANY pattern of transport failures — in particular a failed application-data write followed by
+the close_notify of `Close` or an alert of the read path), the 8-byte values the records are sealed
+under (MAC sequence number, additional data, explicit GCM nonce — `C04_explicit_part`,
+`C04_nonce_is_iv_seq`) are pairwise different.  DTLCP: for fewer than 2^48 records per epoch (the
+modelled limit, see above); TLCP: `incSeq` panics instead of wrapping, which ends the history. -/
+theorem C04_seal_numbers_never_repeat (P : Prims) (st : Stack) (vers : Nat) :
+    ∀ (hist : List (Nat × Bytes × Bytes × Bool)) (w : WriteSide),
+      w.out.cipher ≠ none → (st = .dtlcp → w.writeSeq + hist.length ≤ 2 ^ 48) →
+      ((writeHistory P (srcOf st) st vers w hist).map (·.1)).Pairwise (· ≠ ·) := by
+  intro hist
+  induction hist with
+  | nil => intro w _ _; simp [writeHistory]
+  | cons e rest ih =>
+    intro w hc hb
+    obtain ⟨typ, chunk, rand, sent⟩ := e
+    simp only [writeHistory]
+    cases hw : writeOneT P (srcOf st) st w typ vers chunk rand sent with
+    | ok r =>
+      obtain ⟨rec, w'⟩ := r
+      simp only [List.map_cons, List.pairwise_cons]
+      have hb64 : st = .dtlcp → w.writeSeq + 1 < 2 ^ 64 := by
+        intro h; have := hb h; simp only [List.length_cons] at this
+        have : (2:Nat) ^ 48 < 2 ^ 64 := by decide
+        omega
+      obtain ⟨k1, k2, k3, k4⟩ := C04_write_consumes_seq P st w typ vers chunk rand sent rec w' hc hb64 hw
+      have hb' : st = .dtlcp → w'.writeSeq + rest.length ≤ 2 ^ 48 := by
+        intro h; have := hb h; simp only [List.length_cons] at this
+        have e : w'.writeSeq = w.writeSeq + 1 := by subst h; simpa [sealKey] using k1
+        omega
+      constructor
+      · intro x hx
+        obtain ⟨w'', e1, e2, e3, e4, e5⟩ := history_keys P st vers rest w' (by rw [k3]; exact hc) hb' x hx
+        rw [e1]
+        apply nextSealSeq_ne st w w'' (by rw [e3, k2]) (fun h => by rw [e4 h, k4 h])
+        · intro h
+          refine ⟨?_, e5 h⟩
+          have := hb h; simp only [List.length_cons] at this; omega
+        · omega
+      · exact ih w' (by rw [k3]; exact hc) hb'
+    | alert a => simp
+    | panic => simp
+
+/-- non-vacuity and the scenario itself: application data whose transport write FAILS, then a
+close_notify — both stacks, toy primitives: two records, sealed under 5 and 6 -/
+example :
+    (writeHistory toy srcTlcp .tlcp 0x0101 ⟨⟨some (.aead ⟨[], [2], [3, 3, 3, 3]⟩), none, be 8 5⟩, 0, 0⟩
+      [(23, [1, 2, 3], [], false), (21, [1, 0], [], true)]).map (·.1) = [be 8 5, be 8 6] := by decide
+example :
+    (writeHistory toy srcDtlcp .dtlcp 0x0101 ⟨⟨some (.aead ⟨[], [2], [3, 3, 3, 3]⟩), none, zeroSeq⟩, 1, 5⟩
+      [(23, [1, 2, 3], [], false), (21, [1, 0], [], true)]).map (·.1) = [be 2 1 ++ be 6 5, be 2 1 ++ be 6 6] := by decide
+
+
+/-! ### the padding check of the TRANSLATED source, both stacks -/
+
+/-- **`extractPadding` as it stands in the source of BOTH stacks** (`Gotlcp.Src.tlcp` /
+`Gotlcp.Src.dtlcp`, regenerated from conn.go on every run and tied to the bit-level model by
+`Tie.Padding.tie_extractPadding` / `Tie.PaddingDtlcp.tie_extractPadding_dtlcp`) computes, for every
+decrypted CBC payload (any length up to 2^31; records are at most 2^14 + 2048 bytes), exactly the
+contract the model of `decrypt` uses: it never panics, `good` is all-ones exactly when the last
+`padding_length + 1` bytes — up to all 256 of them, not only those of the last cipher block — equal
+`padding_length`, and then that many bytes are removed; otherwise `good = 0` and one byte is
+removed (so the MAC check runs on the longest possible content). -/
+theorem C04_src_extractPadding (payload : List (BitVec 8)) (hlen : payload.length ≤ 2 ^ 31) :
+    let c := extractPadding (payload.map UInt8.ofBitVec)
+    Src.tlcp.extractPadding payload = .ok ((c.1 : Int), if c.2 then 255#8 else 0#8) ∧
+    Src.dtlcp.extractPadding payload = .ok ((c.1 : Int), if c.2 then 255#8 else 0#8) := by
+  have hlen' : (payload.map UInt8.ofBitVec).length ≤ 2 ^ 31 := by simpa using hlen
+  have key : ∀ p : Bytes, p.length ≤ 2 ^ 31 →
+      (Model.RecordRx.extractPadding p).2.toBitVec = if (extractPadding p).2 then 255#8 else 0#8 := by
+    intro p hp
+    rw [contract_eq p hp]
+    cases hl : p.getLast? with
+    | none =>
+      have : p = [] := by simpa using hl
+      subst this; rfl
+    | some l =>
+      obtain ⟨c1, c2⟩ := Lemmas.RecordRx.extractPadding_correct p l hl hp
+      by_cases hv : Lemmas.RecordRx.ValidPad p l
+      · rw [c1 hv]; rfl
+      · rw [c2 hv]; rfl
+  simp only []
+  rw [Tie.Padding.tie_extractPadding, Tie.PaddingDtlcp.tie_extractPadding_dtlcp, key _ hlen', contract_eq _ hlen']
+  exact ⟨rfl, rfl⟩
+
+/-- … in the terms of the standard (6.3.3.4.2): a decrypted payload ending in a well-formed padding
+of ANY legal length `p ≤ 255` is accepted with `p + 1` bytes removed; if any one of the `p` padding
+bytes in front of the length byte differs — wherever it lies, also farther than one cipher block
+from the end — the padding is rejected. Both stacks, the translated source. -/
+theorem C04_src_long_padding (body : List (BitVec 8)) (p : Nat) (hp : p ≤ 255)
+    (hlen : body.length + p + 1 ≤ 2 ^ 31) :
+    Src.dtlcp.extractPadding (body ++ List.replicate (p + 1) (BitVec.ofNat 8 p)) = .ok ((p : Int) + 1, 255#8) ∧
+    Src.tlcp.extractPadding (body ++ List.replicate (p + 1) (BitVec.ofNat 8 p)) = .ok ((p : Int) + 1, 255#8) ∧
+    ∀ (i : Nat) (b : BitVec 8), i < p → b ≠ BitVec.ofNat 8 p →
+      Src.dtlcp.extractPadding (body ++ (List.replicate (p + 1) (BitVec.ofNat 8 p)).set i b) = .ok (1, 0#8) ∧
+      Src.tlcp.extractPadding (body ++ (List.replicate (p + 1) (BitVec.ofNat 8 p)).set i b) = .ok (1, 0#8) := by
+  let l : UInt8 := UInt8.ofBitVec (BitVec.ofNat 8 p)
+  have hlp : l.toNat = p := by
+    show (BitVec.ofNat 8 p).toNat = p
+    simp only [BitVec.toNat_ofNat]; omega
+  have good : extractPadding ((body ++ List.replicate (p + 1) (BitVec.ofNat 8 p)).map UInt8.ofBitVec) = (p + 1, true) := by
+    rw [List.map_append, List.map_replicate]
+    rw [contract_tail _ _ l (by simp [hlp]) (by simp [List.getLast?_replicate]; rfl)]
+    have : (List.replicate (p + 1) l).all (· == l) = true := by simp
+    rw [if_pos this, hlp]
+  refine ⟨?_, ?_, ?_⟩
+  · have := (C04_src_extractPadding (body ++ List.replicate (p + 1) (BitVec.ofNat 8 p)) (by simp; omega)).2
+    simp only [good] at this
+    exact this
+  · have := (C04_src_extractPadding (body ++ List.replicate (p + 1) (BitVec.ofNat 8 p)) (by simp; omega)).1
+    simp only [good] at this
+    exact this
+  · intro i b hi hb
+    have bad : extractPadding ((body ++ (List.replicate (p + 1) (BitVec.ofNat 8 p)).set i b).map UInt8.ofBitVec) = (1, false) := by
+      rw [List.map_append, List.map_set, List.map_replicate]
+      have hlast : ((List.replicate (p + 1) l).set i (UInt8.ofBitVec b)).getLast? = some l := by
+        rw [List.getLast?_eq_getElem?]
+        simp only [List.length_set, List.length_replicate, Nat.add_sub_cancel]
+        rw [List.getElem?_set_ne (by omega)]
+        simp
+      rw [contract_tail _ _ l (by simp [hlp]) hlast]
+      have hall : ((List.replicate (p + 1) l).set i (UInt8.ofBitVec b)).all (· == l) = false := by
+        rw [Bool.eq_false_iff]
+        intro h
+        rw [List.all_eq_true] at h
+        have hm : UInt8.ofBitVec b ∈ (List.replicate (p + 1) l).set i (UInt8.ofBitVec b) :=
+          List.mem_set (by simp; omega) _
+        have := h _ hm
+        simp only [beq_iff_eq] at this
+        apply hb
+        have : (UInt8.ofBitVec b).toBitVec = l.toBitVec := by rw [this]
+        exact this
+      simp only [hall, Bool.false_eq_true, if_false]
+    have hl2 : (body ++ (List.replicate (p + 1) (BitVec.ofNat 8 p)).set i b).length ≤ 2 ^ 31 := by simp; omega
+    obtain ⟨t1, t2⟩ := C04_src_extractPadding _ hl2
+    simp only [bad] at t1 t2
+    exact ⟨t2, t1⟩
+
+-- a record with 252 bytes of padding through the translated dtlcp code: accepted; the same with
+-- the first padding byte (252 bytes from the end) damaged: rejected
+example : Src.dtlcp.extractPadding ([1#8, 2#8, 3#8] ++ List.replicate 253 252#8) = .ok (253, 255#8) :=
+  (C04_src_long_padding [1#8, 2#8, 3#8] 252 (by omega) (by decide)).1
+example : Src.dtlcp.extractPadding ([1#8, 2#8, 3#8] ++ (List.replicate 253 252#8).set 0 0xaa#8) = .ok (1, 0#8) :=
+  ((C04_src_long_padding [1#8, 2#8, 3#8] 252 (by omega) (by decide)).2.2 0 0xaa#8 (by omega) (by decide)).1
+-- small ones by evaluation of the translated text itself (`toOption`: `Except` has no `DecidableEq`)
+example : (Src.dtlcp.extractPadding ([9#8] ++ List.replicate 18 17#8)).toOption = some (18, 255#8) := by decide
+example : (Src.dtlcp.extractPadding ([9#8] ++ (List.replicate 18 17#8).set 0 0xaa#8)).toOption = some (1, 0#8) := by decide
 
 
 end Gotlcp.Props.C04
